@@ -25,7 +25,7 @@ func (c04) RequiredBuckets(tier string) []string {
 	for _, k := range []string{"point", "site", "range", "prange", "ambiguous", "join", "order", "c-range", "c-join"} {
 		out = append(out, "kind|"+k)
 	}
-	out = append(out, "cmd:rotate", "cmd:split", "topology:circular", "stream:records-independent")
+	out = append(out, "cmd:rotate", "cmd:split", "topology:circular", "stream:records-independent", "sites:beyond-the-origin-of-a-circular-record")
 	return out
 }
 
@@ -102,6 +102,7 @@ func (m c04) check(c *fw.Ctx, kind string, tab []gts.Feature, hostB []byte, n in
 		c.ViolateX("Rotate:"+panicClass(site, val), enc, "no panic", fmt.Sprint(val), stack, nil)
 		return
 	}
+	c.Hold(enc, func() string { return heldSeq(res) })
 	want := make([]byte, L)
 	for k := 0; k < L; k++ {
 		want[(k+nn)%L] = hostB[k]
